@@ -51,6 +51,7 @@ Verdict(C) ==
          Fail((conf = "NC" /\ C.nintfacets > C.nonplanar) => (C.mjump.n > 0 /\ C.mjump.bad = 0), "FacetMeanContinuous"),
          Fail(C.inv.n > 0 /\ C.inv.bad = 0 /\ C.inv_notfound = 0, "InverseMapping"),
          IF C.geo THEN Fail(~C.volnoise /\ Len(C.vol) = N(M, dim) /\ \A c \in 1..N(M, dim) : C.vol[c] = CellVolScaled(fam, dim, Pts(M, dim, c)), "TrafoVolume")
+                       \cup Fail(C.volfn.n > 0 /\ C.volfn.bad = 0, "TrafoVolumeFunction")      \* Evaluator::volume() is that integral too
          ELSE {} }
 
 Emit == LET C == Cases[ci] IN PrintT(ToJson([id |-> C.id, fails |-> SetToSeq(Verdict(C))]))
